@@ -104,6 +104,15 @@ pub const ELEM_CLASSES: &[NameClass] = &[
     },
     NameClass { tag: "nonascii", names: &["é", "Ж", "жж", "λ", "名", "ñu", "Éa", "жЖ", "名前", "über", "ab名前", "é名前", "Идентификатор"] },
     NameClass { tag: "digit", names: &["a1", "a2b", "x10", "A1", "b2", "a1b2", "h1", "H1"] },
+    NameClass {
+        tag: "long",
+        names: &[
+            "averyveryveryverylongelementnamethatgoesonandonandonandonandonandonX1",
+            "averyveryveryverylongelementnamethatgoesonandonandonandonandonandonX2",
+            "длинноеимяэлементакотороепродолжаетсяипродолжаетсяипродолжается",
+            "long-name-with-many-parts-and-separators.that-exceeds.sixty-four_bytes_easily",
+        ],
+    },
 ];
 
 pub const ATTR_CLASSES: &[NameClass] = &[
@@ -125,6 +134,14 @@ pub const ATTR_CLASSES: &[NameClass] = &[
     },
     NameClass { tag: "nonascii", names: &["é", "Ж", "λ", "名", "ñu", "über", "ab名前", "é名前", "Идентификатор"] },
     NameClass { tag: "digit", names: &["a1", "x10", "A1", "b2"] },
+    NameClass {
+        tag: "long",
+        names: &[
+            "averyveryveryverylongattributenamethatgoesonandonandonandonandonandonX1",
+            "averyveryveryverylongattributenamethatgoesonandonandonandonandonandonX2",
+            "оченьдлинноеимяатрибутакотороепродолжаетсяипродолжается",
+        ],
+    },
 ];
 
 pub fn local_of(name: &str) -> &str {
@@ -192,6 +209,7 @@ pub const ALL_CLASSES: &[(&str, u32)] = &[
     ("trap", 2),
     ("nonascii", 2),
     ("digit", 1),
+    ("long", 1),
 ];
 pub const ALL_ATTR_CLASSES: &[(&str, u32)] = &[
     ("plain", 6),
@@ -206,6 +224,7 @@ pub const ALL_ATTR_CLASSES: &[(&str, u32)] = &[
     ("trap", 3),
     ("nonascii", 2),
     ("digit", 1),
+    ("long", 1),
 ];
 
 impl Domain {
